@@ -2,9 +2,37 @@ package codescan
 
 import (
 	"go/ast"
+	"sort"
 
 	"github.com/go-openapi/spec"
 )
+
+// sortedDecls lists the declarations of a map in a stable order (package path, name, position): two
+// declarations may end up in one definition (same name in different packages), and which one is built
+// last must not depend on the iteration order of the map
+func sortedDecls(m map[*ast.Ident]*entityDecl) []*entityDecl {
+	out := make([]*entityDecl, 0, len(m))
+	for _, d := range m {
+		out = append(out, d)
+	}
+	sort.Slice(out, func(i, j int) bool {
+		var pi, pj string
+		if out[i].Pkg != nil {
+			pi = out[i].Pkg.PkgPath
+		}
+		if out[j].Pkg != nil {
+			pj = out[j].Pkg.PkgPath
+		}
+		if pi != pj {
+			return pi < pj
+		}
+		if out[i].Ident.Name != out[j].Ident.Name {
+			return out[i].Ident.Name < out[j].Ident.Name
+		}
+		return out[i].Ident.Pos() < out[j].Ident.Pos()
+	})
+	return out
+}
 
 func newSpecBuilder(input *spec.Swagger, sc *scanCtx, scanModels bool) *specBuilder {
 	if input == nil {
@@ -196,7 +224,7 @@ func (s *specBuilder) buildModels() error {
 		return nil
 	}
 
-	for _, decl := range s.ctx.app.Models {
+	for _, decl := range sortedDecls(s.ctx.app.Models) {
 		if err := s.buildDiscoveredSchema(decl); err != nil {
 			return err
 		}
@@ -214,7 +242,7 @@ func (s *specBuilder) joinExtraModels() error {
 	}
 
 	// process extra models and see if there is any reference to a new extra one
-	for _, decl := range tmp {
+	for _, decl := range sortedDecls(tmp) {
 		if err := s.buildDiscoveredSchema(decl); err != nil {
 			return err
 		}
